@@ -46,6 +46,7 @@ class RTok(object):
         self.attrs = []
         self.attr = None
         self.self_closing = False
+        self.end_details = False
         self.comment = []
         self.dt = None
 
@@ -144,6 +145,10 @@ class RTok(object):
             attrs = tuple(("".join(a[0]), "".join(a[1])) for a in self.attrs if not a[2])
             self.last_start = name
             self.emit(("start", name, attrs, self.self_closing))
+        elif self.end_details:
+            # C02 only: the standard's end tag token carries attributes and the self-closing flag too
+            attrs = tuple(("".join(a[0]), "".join(a[1])) for a in self.attrs if not a[2])
+            self.emit(("end", name, attrs, self.self_closing))
         else:
             self.emit(("end", name))
 
@@ -1182,6 +1187,7 @@ class RTok(object):
             self.state = "cdata"
 
 
-def tokenize(text, state="data", last_start_tag=None, cdata=False, switches=()):
+def tokenize(text, state="data", last_start_tag=None, cdata=False, switches=(), end_details=False):
     t = RTok(text, state, last_start_tag, (lambda: True) if cdata else None, switches)
+    t.end_details = end_details
     return list(t.tokens())
